@@ -276,6 +276,23 @@ class BTSCameraData:
             + CameraViewPort.nBytes  # view_port
         )
 
+    def __eq__(self, o: object) -> bool:
+        if not isinstance(o, BTSCameraData):
+            return False
+        return (
+            np.array_equal(self.rotation_matrix, o.rotation_matrix)
+            and np.array_equal(self.translation_vector, o.translation_vector)
+            and np.array_equal(self.focus, o.focus)
+            and np.array_equal(self.optical_center, o.optical_center)
+            and np.array_equal(
+                self.x_distortion_coefficients, o.x_distortion_coefficients
+            )
+            and np.array_equal(
+                self.y_distortion_coefficients, o.y_distortion_coefficients
+            )
+            and self.view_port == o.view_port
+        )
+
 
 class CalibrationDataBlockFormat(IntEnum):
     """
@@ -446,6 +463,7 @@ class CalibrationDataBlock(Block):
                 o.calibration_volume_translation_vector,
             )
             and np.array_equal(self.cameras_calibration_map, o.cameras_calibration_map)
+            and len(self.cam_data) == len(o.cam_data)
             and all(i == j for i, j in zip(self.cam_data, o.cam_data))
             and self.format == o.format
         )
